@@ -722,6 +722,7 @@ package websocket
 //@ func verifyClientRequest
 //@ tags C11
 //@ requires r != nil && w != nil
+//@ modifies mapof(ghhdr(specRespHeader(w)).vals)
 //@ ensures [iff] (result1 == nil) == specValidUpgrade(r)
 //@ ensures [ok-code] result1 == nil ==> errCode == 0
 //@ ensures [error-status] result1 != nil ==> errCode >= 400 && errCode <= 599
